@@ -22,21 +22,36 @@ def replay_skew(tag, rec):
     out = []
 
     def cl(name, ok, what=''):
-        out.append((name, bool(ok), key + ' | ' + name, what, None if ok else {'n': n, 'p': p, 'q': q, 'spec': rec['dist'], 'observed': what}, 'C17'))
-    try:
-        d = [float(x) for x in gs.create_linear_distribution(n, p / q)]
-    except BaseException as e:  # noqa
-        cl('no_exception', False, '%s: %s' % (type(e).__name__, e))
-        return out, {'hash': key, 'n': n, 'sample': {'n': n, 's': '%d/%d' % (p, q)}}
-    cl('length', len(d) == n, 'length %d' % len(d))
-    if len(d) == n:
-        cl('equals_spec_rationals', all(abs(a - float(b)) <= TOL * max(1.0, abs(float(b))) for a, b in zip(d, exp)),
-           'floats %s, spec %s' % (d, [str(x) for x in exp]))
-        cl('positive', all(x > 0 for x in d), str(d))
-        cl('sums_to_one', abs(sum(d) - 1.0) <= TOL, 'sum %r' % sum(d))
-        if n >= 2:
-            cl('last_is_s_times_first', abs(d[-1] - (p / q) * d[0]) <= TOL, 'first %r last %r s %r' % (d[0], d[-1], p / q))
-        cl('arithmetic', all(abs((d[i + 1] - d[i]) - (d[i] - d[i - 1])) <= TOL for i in range(1, n - 1)), str(d))
+        # numpy integer arguments are recorded as growth (X), never part of the verdict: the statement speaks of numbers
+        owner = 'X' if ('numpy_int64' in name or '_np_n' in name) else 'C17'
+        out.append((name, bool(ok), key + ' | ' + name, what, None if ok else {'n': n, 'p': p, 'q': q, 'spec': rec['dist'], 'observed': what}, owner))
+    import numpy as np
+    # the same skew in every numeric presentation a caller may use (the docstring's own example passes an integer)
+    pres = [('', p / q), ('numpy.float64 ', np.float64(p / q))]
+    if q == 1:
+        pres += [('int ', int(p)), ('numpy.int64 ', np.int64(p))]
+    for pname, sval in pres:
+        sfx = '_' + pname.strip().replace('.', '_') if pname else ''
+        for nname, nval in (('', n),) + ((('numpy.int64 n ', np.int64(n)),) if pname == '' and n <= 12 else ()):
+            tag2 = sfx + ('_np_n' if nname else '')
+            try:
+                d = [float(x) for x in gs.create_linear_distribution(nval, sval)]
+            except BaseException as e:  # noqa
+                cl('no_exception' + tag2, False, '%s%s%s: %s' % (pname, nname, type(e).__name__, e))
+                if not pname and not nname:
+                    return out, {'hash': key, 'n': n, 'sample': {'n': n, 's': '%d/%d' % (p, q)}}
+                continue
+            cl('length' + tag2, len(d) == n, '%s%slength %d' % (pname, nname, len(d)))
+            if len(d) == n:
+                cl('equals_spec_rationals' + tag2, all(abs(a - float(b)) <= TOL * max(1.0, abs(float(b))) for a, b in zip(d, exp)),
+                   '%s%sskew: floats %s, spec %s' % (pname, nname, d, [str(x) for x in exp]))
+                if pname or nname:
+                    continue
+                cl('positive', all(x > 0 for x in d), str(d))
+                cl('sums_to_one', abs(sum(d) - 1.0) <= TOL, 'sum %r' % sum(d))
+                if n >= 2:
+                    cl('last_is_s_times_first', abs(d[-1] - (p / q) * d[0]) <= TOL, 'first %r last %r s %r' % (d[0], d[-1], p / q))
+                cl('arithmetic', all(abs((d[i + 1] - d[i]) - (d[i] - d[i - 1])) <= TOL for i in range(1, n - 1)), str(d))
     return out, {'hash': key, 'n': n, 'sample': {'n': n, 's': '%d/%d' % (p, q), 'spec_weights': ['%d/%d' % tuple(x) for x in rec['dist']][:4]}}
 
 
